@@ -307,6 +307,7 @@ def Val.Wf : Val → Prop
   | .u n => n < 18446744073709551616
   | .b bs => bs.length < 18446744073709551616
   | .x _ => True
+  | .e => False              -- its empty payload is a frame like any other, but no decoder gives the value back
 
 theorem u64_headW (n : Nat) (h : n < 18446744073709551616) :
     Enc.u64 n = headW 0 (prefWidth n) n := by
@@ -490,6 +491,7 @@ theorem valCodec_roundtrip (v : Val) (p : Bytes) (hwf : Val.Wf v) (h : valCodec.
     rw [List.append_nil, ← typeLen_headW _ hwf] at this
     simp [valCodec, Enc.bytes, this]
   | x part => simp [valCodec] at h
+  | e => exact hwf.elim
 
 /-- non-vacuity: a two-frame stream, delivered one byte at a time with interruptions, read
     with `max_len` exactly the larger payload. -/
